@@ -64,6 +64,9 @@ fn mkp(k: u8, w: i128, m: i128) -> PartialComplexTime {
 }
 fn destr(p: PartialComplexTime) -> (Option<i128>, Option<i128>) {
     let (w, m) = p.destructure();
+    // the two single-component accessors must give the same components; where they do not, theirs are what is compared with the model
+    let (aw, am) = (p.checked_to_system_time(), p.checked_to_instant());
+    if (aw, am) != (w, m) { return (aw.map(st_to_ns), am.map(inst_to_ns)); }
     (w.map(st_to_ns), m.map(inst_to_ns))
 }
 
